@@ -100,6 +100,11 @@ fn shuffle_family(run: &mut Run, fam: &streams::SeedFamily, sh: &streams::Shuffl
     (rows, distinct_perms)
 }
 
+/// true iff this build traps integer overflow (the library is built with the same profile)
+fn overflow_checks_on() -> bool {
+    catch(|| std::hint::black_box(i32::MAX) + std::hint::black_box(1)).is_err()
+}
+
 fn main() {
     let args = Args::parse();
     quiet_panics();
@@ -130,6 +135,7 @@ fn main() {
     let (mut skipped, mut skipped_panicked) = (0u64, 0u64);
     let mut bounds_reported = false;
     let mut reach_reported = false;
+    let (mut long_total, mut long_incomplete) = (0u64, Vec::<String>::new());
     for r in &reports {
         let s = &r.summary;
         per.insert(
@@ -137,8 +143,14 @@ fn main() {
             json!({"ranges": s.cases, "draws": s.evals, "ranges_with_2+_distinct_results": s.nontrivial, "small_ranges": s.small_cases,
                    "values_required_reachable": s.reach_required, "of_which_hit_by_raw_below_len": s.reach_low_witnessed,
                    "empty_ranges_skipped": r.skipped, "of_which_the_code_panics_on": r.skipped_panicked,
-                   "ranges_out_of_bounds": s.failing_bounds, "ranges_with_unreachable_value": s.failing_reach}),
+                   "ranges_out_of_bounds": s.failing_bounds, "ranges_with_unreachable_value": s.failing_reach,
+                   "ranges_over_half_the_span": r.long.over_half_span, "ranges_from_MIN": r.long.from_min, "ranges_to_MAX": r.long.to_max,
+                   "ranges_over_half_the_span_from_MIN_to_MAX_neither": [r.long.from_min_over_half_span, r.long.to_max_over_half_span, r.long.neither_end_over_half_span]}),
         );
+        long_total += r.long.over_half_span;
+        if !r.long_complete {
+            long_incomplete.push(format!("{}:{}", r.ty, r.form.name()));
+        }
         skipped += r.skipped;
         skipped_panicked += r.skipped_panicked;
         if let (false, Some((_, f))) = (bounds_reported, &s.first_bounds) {
@@ -164,6 +176,7 @@ fn main() {
     run.cov("int_inclusive_ranges_starting_at_MIN", tot.incl_min_start);
     run.cov("int_inclusive_ranges_not_starting_at_MIN", tot.incl_nonmin_start);
     run.cov("int_inclusive_full_width_ranges", tot.incl_full);
+    run.cov("int_ranges_over_half_the_span_of_their_type", long_total);
     run.cov("int_ranges_out_of_bounds", tot.failing_bounds);
     run.cov("int_ranges_with_unreachable_value", tot.failing_reach);
     run.cov("skipped_out_of_domain", skipped);
@@ -172,6 +185,9 @@ fn main() {
     nontrivial += tot.nontrivial;
     if tot.cases < 100_000 || !tot.saw_top_raw || !tot.saw_negative || tot.incl_min_start < 1000 || tot.incl_nonmin_start < 1000 || tot.incl_full != 10 || tot.small_cases < 100_000 {
         run.machinery_failure("integer range enumeration explored implausibly little (ranges, raw >= 2^63, negative results, the three RangeInclusive branches, small ranges)");
+    }
+    if !long_incomplete.is_empty() {
+        run.machinery_failure(&format!("the integer range family lacks long ranges (over half the span of the type from MIN / to MAX / touching neither end, the longest range of the form) for {long_incomplete:?}"));
     }
     if tot.failing_bounds == 0 && tot.nontrivial * 10 < tot.cases * 9 {
         // ranges of length 1 are the only ones that may give a single value
@@ -311,9 +327,10 @@ fn main() {
     run.cov("distinct_nontrivial", nontrivial);
     run.cov(
         "rule",
-        "integer: every (start,end) of a..b, a..=b, ..b, ..=b, .. for i8/u8 (thorough: also every ..b, ..=b for i16/u16) and all pairs of boundary values + anchored boundary lengths (1,2,3,2^k,2^k+-1,MAX,full) for the wider types, each crossed with the raw alphabet R(len) (0..=2len, top of u64, neighbours of multiples of len near 2^8..2^64, powers of two, ceil(k*2^64/len)); float: all ordered pairs of a 20-value boundary grid x 2300 raw values; generator: all seeds of the stated sets. \
+        "integer: every (start,end) of a..b, a..=b, ..b, ..=b, .. for i8/u8 (thorough: also every ..b, ..=b for i16/u16) and all pairs of boundary values (0, +-small, 2^k+-1, MIN+d, MAX-d, a quarter / half / three quarters of the way to MIN and to MAX +-1, round decimal bounds 10^k, 5*10^k) + boundary lengths (1,2,3,2^k,2^k+-1,MAX, three quarters of the span +-1, span-d, full) anchored to start and to end at every boundary value for the wider types - so every type incl. isize/usize has ranges of more than half its span from MIN, to MAX and touching neither end, and the longest range of every form MIN..MAX, MIN..=MAX, ..MAX, ..=MAX, .. (counted per type and form, their absence is a machinery failure) -, each crossed with the raw alphabet R(len) (0..=2len, top of u64, neighbours of multiples of len near 2^8..2^64, powers of two, ceil(k*2^64/len)); float: all ordered pairs of a 20-value boundary grid x 2300 raw values; generator: all seeds of the stated sets. \
          seeds: every seed-quantified family runs on a dense interval [0,S) and on structured 64-bit seeds - every single bit 1<<k, 3/5/42/0xab/0xabc shifted to every position, only-low-bits masks 2^k-1, only-high-bits masks !0<<k, 2^k+1, all ones but one bit, the top bit plus one bit, every top byte b<<56, u64::MAX-j (j<=16), alternating and half-word patterns (the core = single bits, MAX, MAX-1, patterns); determinism: [0,S) + boundary + the structured alphabet; shuffle: [0,S) (rearrangement, every rearrangement of len<=6 reached, counts within [1/2,2] x mean) and the structured family = every odd m < 2^12 (thorough 2^14) shifted to every position + the structured alphabet (rearrangement, every rearrangement of len<=6 reached). \
          serial structure: for every integer type and every value-set size n in {2..16, 32, 64, 128, 255, 256} (16-bit types: also 2^9..2^15 and 65535) every range form denoting n values (a..a+n and a..=a+n-1 for a in {0, MIN, 1}, ..n, ..=n-1), and for the 8- and 16-bit types the full-width forms (.., MIN..=MAX, ..=MAX): the stream of consecutive draws from every seed of the case has no period p <= max(n, tier base), searched in a stream of at least 3 periods (seeds per case: [0,S), S stated in period_seeds_per_case_plain_forms_long for plain next(0..len) on usize / the other cases / streams longer than the tier base, followed by the whole structured alphabet for the plain cases and its core for the other cases). \
+         two builds: the whole enumeration is executed in the release profile and, as a child process, in the dbg profile (same optimisation, debug assertions and integer overflow checks on, like `cargo test`), where a panic on an in-domain case is a violation (signature prefix dbg:); empty ranges are skipped before the call in both. \
          distinct_nontrivial = number of distinct integer (type,form,range) cases + float ranges whose draws produced at least two different in-range values (measured)",
     );
     run.cov("exhaustive", true);
@@ -322,5 +339,13 @@ fn main() {
     run.assume("reachability of a small range is witnessed on a stated finite raw alphabet (which contains 0..=2*len and ceil(k*2^64/len) for every k), not on all of u64");
     run.assume("for the periodicity clause a 'small range' is a range of any form with at most 2^16 values (which includes the full-width forms of the 8- and 16-bit types); 'not periodic' = no p <= max(value count, tier base) with s[i] == s[i+p] throughout a stream of at least 3p draws");
     run.assume("near-equal frequency of the rearrangements is demanded over the dense seed interval only; the structured seed family is not a uniform sample of the seeds (half of its members have 32 or more trailing zero bits), so over it only reachability is demanded and the counts are recorded as a diagnostic (shuffle_structured_reach_and_counts_diagnostic)");
+    run.assume("two builds are judged: the release profile of the workspace (overflow checks and debug assertions off, like a release build of rlib) and, as a second pass over the same enumeration, the dbg profile (debug assertions and integer overflow checks on): the property does not restrict the build, so a draw that panics there on a non-empty range, or a stream that differs there, is a violation (signature prefix dbg:)");
+    run.cov("overflow_checks_in_this_build", overflow_checks_on());
+    if std::env::var("VCORE_CHILD").is_err() {
+        // the same enumeration in a build with debug assertions and integer overflow checks
+        run.run_dbg_child();
+    } else if !overflow_checks_on() {
+        run.machinery_failure("the second-profile pass runs in a build without integer overflow checks");
+    }
     run.finish(&confirm)
 }
